@@ -27,6 +27,10 @@ class TA(Agent):
             if when == (r, s, self.id):
                 self.model.delete_agent(victim)
 
+class TB(TA):
+    def initialize(self):
+        self.agent_type = "b"
+
 class TM(Model):
     def begin_round(self, time, r, s):
         TR.append(("begin", time, r, s))
@@ -41,8 +45,10 @@ def run(case):
     m.kills = case.get("kills", [])
     m.run_specs(case["start"], case["stop"], dt)
     m.register_agent_factory("a", lambda i, mod, p: TA(i, mod, p))
-    for _ in range(case["agents"]):
-        m.create_agent("a", None)
+    m.register_agent_factory("b", lambda i, mod, p: TB(i, mod, p))
+    types = case.get("types") or ["a"] * case["agents"]
+    for i in range(case["agents"]):
+        m.create_agent(types[i % len(types)], None)       # agent types interleaved in creation order
     live = list(range(case["agents"]))
     exp = []
     try:
@@ -94,6 +100,16 @@ def run(case):
             live = [a for a in live if a not in dead]
     if pos != len(TR):
         return "extra trace records after the last step: %r" % (TR[pos:pos + 3],)
+    if case.get("again") and not m.kills:
+        # the same model is run once more without data collection: its statistics are those of THAT run (the final step only)
+        try:
+            m.run(False, False)
+            keys = sorted(m.statistics().keys())
+        except Exception as e:
+            return "second run raised %s: %s" % (type(e).__name__, e)
+        last = case["stop"] + (n - 1) * dt
+        if keys != [last]:
+            return "after a second run without data collection the statistics hold the times %r, that run recorded only %r" % (keys[:6], [last])
     return None
 '''
 exec(PRELUDE)
@@ -111,7 +127,8 @@ def gen(rnd):
             victim = rnd.randint(0, agents - 1)
             kills.append(((rnd.randint(start, stop), rnd.randint(0, n - 1), actor), victim))
     return dict(start=start, stop=stop, n=n, agents=agents, collect=rnd.random() < 0.5,
-                mode=rnd.choice(['run', 'steps']), kills=kills)
+                mode=rnd.choice(['run', 'steps']), kills=kills, types=rnd.choice([None, ['a', 'b'], ['b', 'a', 'a'], ['a', 'b', 'b', 'a']]),
+                again=rnd.random() < 0.4)
 
 
 def main():
